@@ -4,18 +4,49 @@ from __future__ import annotations
 import gen_c06 as G
 
 
+SHADOW = "added a name that was bound in another given namespace (shadowing)"
+
+
 def fam_d14(case, failure):
-    """D14: the head of a missing dotted name is bound in an OUTER given namespace to the very object the import
-    yields (the registry module); the code copies that same object into the target namespace."""
-    return (failure.get("what") == "added a name that was bound in another given namespace (shadowing)"
+    """D14: the head of a missing dotted name is bound in an OUTER given namespace to the module registered under
+    that name (the negated hypothesis of C06_only_needed_unbound_partial); the code copies the object the import
+    yields — the very same object — into the target namespace."""
+    return (failure.get("what") == SHADOW and failure.get("outer_is_registry_module") is True
             and failure.get("same_object") is True)
+
+
+def fam_d14b(case, failure):
+    """D14b: as D14, but the import REPLACED sys.modules[name] while it ran (a module of the universe assigns
+    sys.modules[<that name>]), so the object copied into the target differs from the outer binding."""
+    if not (failure.get("what") == SHADOW and failure.get("outer_is_registry_module") is True
+            and failure.get("same_object") is False):
+        return False
+    name = failure.get("name")
+    return any(e.get("k") == "sysmod" and e.get("target") == name for m in case["universe"] for e in m["effects"])
 
 
 class C06(G.AutoImpBase):
     id = "C06"
     driver = "C06"
     lean_modules = ["Pfb.C06.Props"]
-    theorems = []
+    theorems = [
+        "Pfb.C06.C06_frame",
+        "Pfb.C06.C06_frame_every_attempt",
+        "Pfb.C06.C06_only_needed",
+        "Pfb.C06.C06_shadow_only_registry",
+        "Pfb.C06.C06_only_needed_unbound_partial",
+        "Pfb.C06.Witness.D14_witness",
+        "Pfb.C06.Witness.C06_only_needed_unbound_everywhere_fails",
+        "Pfb.C06.C06_failure_untouched",
+        "Pfb.C06.C06_tryImport_refused",
+        "Pfb.C06.C06_refused_not_retried",
+        "Pfb.C06.C06_refusal_recorded",
+        "Pfb.C06.C06_unparsable",
+        "Pfb.C06.C06_unparsable_history",
+        "Pfb.AutoImp.Reach.invariants",
+        "Pfb.AutoImp.reach_run",
+        "Pfb.AutoImp.tryImport_spec",
+    ]
     rule = ("histories from harness/gen_c06.py: synthetic on-disk import universe (packages, submodules, members, raising modules, "
             "modules rebinding attributes / replacing sys.modules entries) x database text (unique/ambiguous/missing/dotted/alias/"
             "forget) x namespace stacks of 1-3 dicts (registry modules, other modules under a package name, non-module objects, "
@@ -27,7 +58,7 @@ class C06(G.AutoImpBase):
                     "ScopeStack normalisation (builtins first, duplicates dropped) is not modelled: the namespaces given are distinct dicts"]
     assumptions = ["namespace dict keys are identifiers (no dotted keys)",
                    "module bodies do not import other universe modules and raise only Exception subclasses"]
-    families = {"D14": fam_d14}
+    families = {"D14": fam_d14, "D14b": fam_d14b}
 
     def oracle(self, case, obs):
         return G.oracle_c06(case, obs)
